@@ -139,7 +139,10 @@ func H_decode_total() {
 // H_unserialize_prefixed: arbitrary bytes after the concrete prefixes of the serialize grammar.
 func H_unserialize_prefixed() {
 	n := symx.Param("n", 2)
-	pre := []string{"s:", "a:", "i:", "b:", "d:", "N", "O:", "s:1:\"", "a:1:{", "a:1:{i:0;", "i:1", "s:2:\"a"}[symx.Choose("prefix", 12)]
+	// the last four prefixes carry boundary-size counts / lengths / values in front of the window
+	prefixes := []string{"s:", "a:", "i:", "b:", "d:", "N", "O:", "s:1:\"", "a:1:{", "a:1:{i:0;", "i:1", "s:2:\"a",
+		"a:9223372036854775807:", "a:4294967296:{", "s:9223372036854775807:\"", "i:9223372036854775808"}
+	pre := prefixes[symx.Choose("prefix", len(prefixes))]
 	s := pre + symx.String("s", n)
 	vars := []data.Variable{node.NewVariable(nil, "x", 0, nil)}
 	ctx := vm.CreateContext(vars)
